@@ -2,6 +2,7 @@ package main
 
 import (
 	"context"
+	"encoding/binary"
 	"fmt"
 	"strings"
 
@@ -95,6 +96,24 @@ func oracleC13(o *obs) []mc.Violation {
 		return []mc.Violation{fail(o, "panic", "", "node panicked: "+o.s.RunPanic)}
 	}
 	if o.verified {
+		// the peer must have completed the version/verack handshake before the headers message
+		// that verified it was delivered
+		version, verack, handshakeFirst := false, false, false
+		for _, l := range o.all {
+			if l == "version" {
+				version = true
+			}
+			if l == "verack" {
+				verack = true
+			}
+			if strings.HasPrefix(l, "headers[bsv-split") && version && verack {
+				handshakeFirst = true
+			}
+		}
+		if !handshakeFirst {
+			vs = append(vs, fail(o, "verified-without-handshake", fmt.Sprintf("version-%t-verack-%t", version, verack),
+				"the peer is treated as verified although it never completed the version/verack handshake before its headers reply"))
+		}
 		// verify-only: the connection must be closed right after the successful verification
 		if o.sc.Opt.VerifyOnly {
 			if o.closedAt == -1 {
@@ -199,6 +218,36 @@ func oracleC03(o *obs) []mc.Violation {
 func oracleC14(o *obs) []mc.Violation {
 	if o.s.RunPanic != "" {
 		return []mc.Violation{fail(o, "panic", "", "node panicked: "+o.s.RunPanic)}
+	}
+	var vs []mc.Violation
+	// every byte the harness sends is part of a correctly framed message with the right magic and
+	// checksum, so an error about network magic / checksum / command characters, or a pong for a
+	// nonce that was only ever present inside a payload, is conclusive evidence that the node parsed
+	// a message from the middle of another one
+	if err := o.s.RunErr; err != nil && o.runBack {
+		msg := err.Error()
+		for _, sign := range []string{"Wrong Network", "bad checksum", "Invalid command characters"} {
+			if strings.Contains(msg, sign) {
+				last := "?"
+				if o.closedAt >= 0 && o.closedAt < len(o.all) {
+					last = o.all[o.closedAt]
+				}
+				vs = append(vs, fail(o, "desynchronised", letterClass(last)+"|"+strings.ReplaceAll(sign, " ", "-"),
+					fmt.Sprintf("after '%s' the node failed with %q: it parsed a message header from payload bytes", last, msg)))
+				break
+			}
+		}
+	}
+	for _, f := range o.s.Frames {
+		if f.Command == wire.CmdPong && len(f.Payload) == 8 {
+			if n := binary.LittleEndian.Uint64(f.Payload); n == netsim.SmuggledNonce {
+				vs = append(vs, fail(o, "reply-to-payload-bytes", "pong", "the node answered a ping that was never sent as a message (it only exists inside the payload of another message)"))
+				break
+			}
+		}
+	}
+	if len(vs) > 0 {
+		return vs
 	}
 	if o.stuckAt == -1 {
 		return nil
